@@ -38,6 +38,15 @@ def flat_add(e):
     return [e]
 
 
+def _recv_into(a, data, peer):
+    """socket.recvfrom_into(buffer[, nbytes]): the datagram's first octets overwrite the start of the buffer, the rest of the
+    buffer keeps what it held"""
+    buf = a[0]
+    n = min(len(data), len(buf) if len(a) < 2 or not a[1] else min(len(buf), a[1]))
+    buf[:n] = data[:n]
+    return (n, peer)
+
+
 def fold_replies(L, repo):
     """R1/R2 decided by folding the WHOLE receive path (handle_rx -> verify_req/prepare_req -> [parse_cmd: oracle]
     -> send_response -> sendto) for scenario datagrams and handler results: number of datagrams sent, their exact
@@ -78,10 +87,18 @@ def fold_replies(L, repo):
                 if isinstance(st_, ast.Assign) and len(st_.targets) == 1 and canon(st_.targets[0]).startswith("self.") \
                         and isinstance(st_.value, ast.Constant):
                     env0[canon(st_.targets[0])] = st_.value.value
+                elif isinstance(st_, ast.Assign) and len(st_.targets) == 1 and canon(st_.targets[0]).startswith("self.") \
+                        and isinstance(st_.value, ast.Call) and canon(st_.value.func) in ("bytearray", "memoryview", "bytes", "list", "dict", "set"):
+                    # preallocated buffers / views over them (evaluated in order: a view is a view of THAT buffer)
+                    try:
+                        env0[canon(st_.targets[0])] = Ev(repo, ci.mod, env=dict(env0), self_cls=ci).ev(st_.value)
+                    except (Unknown, Raised):
+                        pass
         env0.update({"self.rsp_delay_ms": 0, "self.remote_addr": "10.0.0.9", "self.remote_port": 5555})
         e = Ev(repo, ci.mod, env=env0, self_cls=ci)
         e.ignore_calls = ("log.", "logging.")
         e.hooks = {"self.sock.recvfrom": lambda a, data=data: (data, PEER), "self.parse_cmd": parse,
+                   "self.sock.recvfrom_into": (lambda a, data=data: _recv_into(a, data, PEER)),
                    "self.sock.sendto": lambda a: sent.append(tuple(a)), "time.sleep": lambda a: None,
                    "self.desc_link": lambda a: "L:0.0.0.0:5701 -> R:10.0.0.9:5555"}
         try:
@@ -124,6 +141,7 @@ def fold_replies(L, repo):
         handled.append(cur[0])
         return seq[cur[0]][2]
     e.hooks = {"self.sock.recvfrom": lambda a: (seq[cur[0]][0], seq[cur[0]][1]), "self.parse_cmd": parse2,
+               "self.sock.recvfrom_into": (lambda a: _recv_into(a, seq[cur[0]][0], seq[cur[0]][1])),
                "self.sock.sendto": lambda a: sent.append((cur[0],) + tuple(a)), "time.sleep": lambda a: None,
                "self.desc_link": lambda a: "L:0.0.0.0:5701 -> R:10.0.0.9:5555"}
     try:
@@ -156,6 +174,12 @@ def r1_one_reply(L, repo, force_shape=False):
     # names bound by recvfrom
     recv = [n for n in ast.walk(fd) if isinstance(n, ast.Assign) and isinstance(n.value, ast.Call)
             and canon(n.value.func).endswith(".recvfrom")]
+    if folded and (len(recv) != 1 or not isinstance(recv[0].targets[0], ast.Tuple)):
+        # the datagram is read another way (recvfrom_into a preallocated buffer, a helper): number, text and destination of
+        # the replies are decided by the fold; the branch table of this shape is not applicable
+        L.extra.setdefault("structural_proofs", {})["C05.R1 branch table of handle_rx (recvfrom form)"] = {
+            "obligations": 0, "closed": False, "open": ["the datagram is not bound by a `data, remote = ...recvfrom(n)` statement"]}
+        return None
     L.require("C05.R1", FC, fn, "number of recvfrom() calls", 1, len(recv))
     if len(recv) != 1 or not isinstance(recv[0].targets[0], ast.Tuple):
         raise AnalysisError("handle_rx: recvfrom shape unclassifiable")
@@ -338,9 +362,19 @@ def r2_format(L, repo, force_shape=False):
                   want, txt)
     ci, vc = repo.need_method("ctrl_if", "CTRLInterface", "verify_cmd")
     ps = params(vc)
-    if len(ps) != 5:
+    # (further parameters are options of later callers: they are folded at their defaults, as every pinned call site leaves them)
+    n_dflt = len(vc.args.defaults)
+    extra_ = ps[5:]
+    if len(ps) < 5 or len(extra_) > max(0, n_dflt - 1):
         raise AnalysisError("verify_cmd signature changed")
-    _, RQ, CMD, ARGC, VA = ps
+    _, RQ, CMD, ARGC, VA = ps[:5]
+    dflt_env = {}
+    for p_, d_ in zip(ps[len(ps) - n_dflt:], vc.args.defaults):
+        if p_ in extra_:
+            try:
+                dflt_env[p_] = Ev(repo, repo.mod("ctrl_if"), self_cls=ci).ev(d_)
+            except (Unknown, Raised):
+                raise AnalysisError("verify_cmd: default of %s does not fold" % p_)
     # comparison-only code over (verb equal?, number of arguments, argc, va): folded exhaustively
     # over request lengths 1..8, argc 0..7, both verbs, both va values
     mod = repo.mod("ctrl_if")
@@ -351,7 +385,8 @@ def r2_format(L, repo, force_shape=False):
             for argc in range(0, 8):
                 for va in (False, True):
                     req = ["VERB" if verb_ok else "OTHER"] + ["1"] * nargs
-                    env = {RQ: req, CMD: "VERB", ARGC: argc, VA: va}
+                    env = dict(dflt_env)
+                    env.update({RQ: req, CMD: "VERB", ARGC: argc, VA: va})
                     try:
                         r = Ev(repo, mod, env=env, self_cls=ci).run_block(vc.body)
                     except (Unknown, Raised) as ex:
